@@ -790,9 +790,11 @@ def create_path(rep, add_formula, check):
                     raise RuntimeError("unknown identifier: {}".format(rep))
             else:
                 raise RuntimeError("invalid dynamic formula: {}".format(rep))
-        #this case is probably impossible 
         else:
-            return create_atom(rep, add_formula, True)
+            atom = create_atom(rep, add_formula, True)
+            if check:
+                return atom
+            return add_formula(SequencePath(add_formula(CheckPath(atom)), add_formula(SkipPath())))
     else:
         raise RuntimeError("invalid dynamic formula: {}".format(rep))
 
